@@ -25,7 +25,7 @@ ASSUMPTIONS = ["bounds of the statement are evaluated on the generated geometry:
                "of the interface end points of both frames, bounding-box shape change < 10% of that extent; instances outside give no verdict"]
 REQUIRED_TAGS = {"all": ["inside_bounds", "outside_bounds", "renumbered", "cm", "guess_true", "guess_wrong", "len>2", "roundtrip_checked", "binding:spacing", "binding:extent"]}
 
-VMAPS = [["id"], ["rev"], ["gap", 3, 7], ["off", 10 ** 6], ["rot", 5]]
+VMAPS = [["id"], ["rev"], ["gap", 3, 7], ["off", 10 ** 6], ["rot", 5], ["swap0"]]
 
 
 def tissue_for(base, cells):
@@ -46,8 +46,13 @@ def real_junctions(at):
 def build_frames(at, cm, fields, vmaps, k=1):
     """fields: list (per frame) of {jid: complex displacement from the reference position}"""
     spec = []
+    real = real_junctions(at)
+    jsorted = sorted(at["J"], key=int)
+    zero_j = jsorted.index(real[len(real) // 2])      # "swap0": id 0 sits on an interface end point
     for t, dz in enumerate(fields):
-        spec.append({"at": at, "k": k, "cmap": cm, "post": SC.displace_post(at, dz), "time": float(t), "lab": {"vmap": vmaps[t % len(vmaps)]}})
+        vm = vmaps[t % len(vmaps)]
+        vm = ["swap", 0, zero_j] if vm == ["swap0"] else vm
+        spec.append({"at": at, "k": k, "cmap": cm, "post": SC.displace_post(at, dz), "time": float(t), "lab": {"vmap": vm}})
     return spec
 
 
